@@ -79,7 +79,12 @@ def main():
                         fails[item].pop(norm(x), None)
         left = {i: len(v) for i, v in fails.items() if v}
         print(prop, "unlisted bounded failures:", left, "unlisted refuted obligations:", sorted(obls)[:10], len(obls))
-    json.dump(data, open(KF, "w"), indent=1)
+    # merge: re-read the file (it may have been edited meanwhile) and replace only the finding entries of the processed properties
+    cur = json.load(open(KF))
+    keep = [e for e in cur["entries"] if not (e.get("kind") == "finding" and e.get("property") in props)]
+    new = [e for e in data["entries"] if e.get("kind") == "finding" and e.get("property") in props]
+    cur["entries"] = keep + new
+    json.dump(cur, open(KF, "w"), indent=1)
 
 if __name__ == "__main__":
     main()
